@@ -585,11 +585,13 @@ c55_wf([T|Ts], How, S) :- c55_w1(How, S, T), write(S, ' .'), nl(S), c55_wf(Ts, H
 c55_w1(writeq, S, T) :- writeq(S, T).
 c55_w1(write_canonical, S, T) :- write_canonical(S, T).
 c55_w1(write_term(O), S, T) :- write_term(S, T, O).
-c55_rfile(File, Ts, Rs) :- open(File, read, S), c55_rf(Ts, S, Rs), close(S).
-c55_rf([], _, []).
-c55_rf([T|Ts], S, [R|Rs]) :-
-    catch(( read_term(S, T2, []) -> true ; T2 = '$read_failed' ), _, T2 = '$syntax_error'),
-    ( c55_variant(T, T2) -> R = ok ; R = bad ), c55_rf(Ts, S, Rs).
+c55_rfile(File, Ts, Mode, Rs) :- open(File, read, S), c55_rf(Ts, S, Mode, Rs), close(S).
+c55_rf([], _, _, []).
+c55_rf([T|Ts], S, Mode, [R|Rs]) :-
+    catch(( c55_sread(Mode, S, T2) -> true ; T2 = '$read_failed' ), _, T2 = '$syntax_error'),
+    ( c55_variant(T, T2) -> R = ok ; R = bad ), c55_rf(Ts, S, Mode, Rs).
+c55_sread(nv, S, T2) :- !, read_term(S, T2, [variable_names(Vs)]), c55_bind(Vs).
+c55_sread(_, S, T2) :- read_term(S, T2, []).
 """
 
 CURRENT_OPS = {}
@@ -713,7 +715,7 @@ def rt_test(ctx, cases, opts, tag, groups, mode="plain"):
             jid = "%s_%d_%d" % (tag, g, j)
             jobs.append({"id": jid, "consult": groups[g], "queries": qs, "timeout_ms": 60000, "fresh": ":- op(" in groups[g] or len(groups) > 1})
             layout[jid] = lay
-    out = core.vrun_query(ctx.prop, jobs, tag=tag)
+    out = core.vrun_query(ctx.prop, jobs, tag=tag, nproc=(2 if len(cases) < 400 else None))
     result = [None] * len(cases)
     redo = []
     for jid, lay in layout.items():
@@ -797,7 +799,7 @@ def abstract_shape(t, ops, depth=0):
 def classify_failures(ctx, res, failing, opts, label, tag, groups, group_ops, mode="plain", key_prefix="roundtrip", max_report=30):
     """failing: list of (term, group, (written, back)).  Shrinks to minimal failing subterms, generalises while the failure persists
     (subterms -> a, operator atoms -> *, the special functors - + , -> a generic operator), derives keys, reports."""
-    failing = failing[:80]
+    failing = failing[:40]
     if not failing:
         return
     cands, owner = [], []
@@ -819,7 +821,7 @@ def classify_failures(ctx, res, failing, opts, label, tag, groups, group_ops, mo
     for fi, f in enumerate(failing):
         m = best.get(fi, f)
         minimal.setdefault((pl_text(m[0]), m[1]), m)
-    cur = list(minimal.values())[:60]
+    cur = list(minimal.values())[:25]
     A, STAR = ("atom", "a"), ("atom", "*")
 
     def all_paths(t, path=()):
@@ -849,7 +851,7 @@ def classify_failures(ctx, res, failing, opts, label, tag, groups, group_ops, mo
                     out.append(replace_at(t, pth, ("cmp", "\\", sub[2])))
         return out
 
-    for _round in range(14):
+    for _round in range(9):
         trial, idx = [], []
         for i, (t, g, x) in enumerate(cur):
             for m in mutations(t, group_ops[g])[:24]:
